@@ -254,6 +254,11 @@ pub fn build(
                         "field `{ident}` of type `{resolvee_path}` is a `void` by value; `void` can only be used behind a pointer"
                     );
                 }
+                if is_base && ident.0 == "_" {
+                    anyhow::bail!(
+                        "a base field of type `{resolvee_path}` has no name; `_` cannot be a base"
+                    );
+                }
 
                 let ident = (ident.0 != "_").then(|| ident.0.clone());
                 pending_regions.push((
